@@ -14,6 +14,7 @@ package main
 //	range <startValue> <endValue> <budget>
 //	poll <budget> | <failAt> <stream> | <failAt> <stream> …      one `|` section per round; the source fails (stop)
 //	    on the first Run after the listed rounds
+//	pollinterval <name>      Materialize with poll_interval => DESCRIPTOR(name), as the matcher table declares it
 //
 // Output: `<status> <stream>` with status ok | err:budget | err:source | err:other | panic.  Time *values* are printed
 // exactly (big integers, ns since the Unix epoch) because window bounds may leave the int64 UnixNano range.  For
@@ -45,6 +46,11 @@ const c21ClockBase = int64(1_000_000_000_000_000) // 10^15: above every scripted
 const c21RealClockMin = int64(1_000_000_000_000_000_000)
 
 var errC21Budget = errors.New("verif: consumer budget exhausted")
+
+// a node that produces more than this is cut off (status err:runaway): a mutated loop must not eat the machine
+const c21Runaway = 100_000
+
+var errC21Runaway = errors.New("verif: runaway producer")
 
 // ---------- scripted datasource ----------
 
@@ -128,6 +134,9 @@ func c21Collect(n execution.Node, budget int) (out []Msg, status string) {
 			if budget >= 0 && len(out) >= budget {
 				return errC21Budget
 			}
+			if len(out) >= c21Runaway {
+				return errC21Runaway
+			}
 			out = append(out, Msg{Rec: execution.Record{Values: append([]octosql.Value(nil), r.Values...), Retraction: r.Retraction, EventTime: r.EventTime}})
 			return nil
 		},
@@ -135,12 +144,17 @@ func c21Collect(n execution.Node, budget int) (out []Msg, status string) {
 			if budget >= 0 && len(out) >= budget {
 				return errC21Budget
 			}
+			if len(out) >= c21Runaway {
+				return errC21Runaway
+			}
 			out = append(out, Msg{IsWM: true, WM: m.Watermark})
 			return nil
 		})
 	switch {
 	case err == nil:
 		status = "ok"
+	case errors.Is(err, errC21Runaway):
+		return out[:8], "err:runaway"
 	case errors.Is(err, errC21Budget):
 		status = "err:budget"
 	case errors.Is(err, ErrInjected):
@@ -326,6 +340,28 @@ func driveC21(toks []string) string {
 		}
 		out, status := c21Collect(node, budget)
 		return c21Line(status, c21EncodeMsgs(out, nil))
+	case "pollinterval":
+		// poll_interval passed the way the argument matcher declares it (a DESCRIPTOR): Materialize reads
+		// `.Expression.Expression` of that argument — a nil pointer (C07 territory; recorded here as a witness)
+		status := "ok"
+		func() {
+			defer func() {
+				if r := recover(); r != nil {
+					status = "panic"
+				}
+			}()
+			_, err := tvf.Poll.Descriptors[0].Materialize(bg, env, map[string]physical.TableValuedFunctionArgument{
+				"source": c21TableArg(c21SourceNode(&c21PollSource{}, 0, -1)),
+				"poll_interval": {
+					TableValuedFunctionArgumentType: physical.TableValuedFunctionArgumentTypeDescriptor,
+					Descriptor:                      &physical.TableValuedFunctionArgumentDescriptor{Descriptor: head[1]},
+				},
+			})
+			if err != nil {
+				status = "err:materialize"
+			}
+		}()
+		return status
 	case "poll":
 		budget := c21Atoi(head[1])
 		ps := &c21PollSource{}
@@ -573,7 +609,7 @@ func genC21(g *Gen, tier string, w *bufio.Writer) {
 		nt = 150000
 	}
 	for i := 0; i < nt; i++ {
-		c21GenTumble(g, w, false)
+		c21GenTumble(g, w, i%40 == 0)
 	}
 	// poll
 	np, maxRounds := 1500, 4
